@@ -12,6 +12,9 @@ pub mod c11;
 pub mod c12;
 pub mod c13;
 pub mod c14;
+pub mod c17;
+pub mod c18;
+pub mod c19;
 
 use crate::Prop;
 
@@ -30,6 +33,9 @@ pub fn lookup(id: &str) -> Option<Box<dyn Prop>> {
         "C12" => Box::new(c12::C12),
         "C13" => Box::new(c13::C13),
         "C14" => Box::new(c14::C14),
+        "C17" => Box::new(c17::C17),
+        "C18" => Box::new(c18::C18),
+        "C19" => Box::new(c19::C19),
         _ => return None,
     })
 }
